@@ -1,6 +1,7 @@
 package main
 
 import (
+	"go/constant"
 	"go/token"
 	"go/types"
 	"sort"
@@ -94,6 +95,8 @@ type AI struct {
 	oneShot func(tok string) bool
 	// onBranch is invoked when a conditional edge is taken (idx 0 = true edge)
 	onBranch func(st *aiState, ifi *ssa.If, idx int)
+	// onSelect is invoked on the forked state when select case i is chosen (-1 = default)
+	onSelect func(st *aiState, sel *ssa.Select, i int)
 	// onRecv is invoked when a receive from a tracked token is executed (select case or plain receive)
 	onRecv func(st *aiState, tok string, in ssa.Instruction, bare bool)
 
@@ -120,6 +123,9 @@ func (ai *AI) val(st *aiState, v ssa.Value) string {
 		}
 		if k, ok := constInt(x); ok {
 			return "k:" + itoa(int(k))
+		}
+		if x.Value.Kind() == constant.String {
+			return "s:" + constant.StringVal(x.Value)
 		}
 		return ""
 	case *ssa.ChangeType:
@@ -151,13 +157,15 @@ func (ai *AI) evalBin(st *aiState, b *ssa.BinOp) string {
 	}
 	eq := ""
 	switch {
-	case x == y && (x == "nil" || x == "true" || x == "false" || strings.HasPrefix(x, "k:")):
+	case x == y && (x == "nil" || x == "true" || x == "false" || strings.HasPrefix(x, "k:") || strings.HasPrefix(x, "s:")):
 		eq = "true"
 	case (x == "nil" && isNonNilish(y)) || (y == "nil" && isNonNilish(x)):
 		eq = "false"
 	case (x == "true" && y == "false") || (x == "false" && y == "true"):
 		eq = "false"
 	case strings.HasPrefix(x, "k:") && strings.HasPrefix(y, "k:") && x != y:
+		eq = "false"
+	case strings.HasPrefix(x, "s:") && strings.HasPrefix(y, "s:") && x != y:
 		eq = "false"
 	default:
 		return ""
@@ -188,6 +196,31 @@ func (ai *AI) Run(init *aiState) {
 		ai.maxStates = 200000
 	}
 	ai.visited = map[string]bool{}
+	// only values that live across blocks are part of the state identity
+	ai.live = map[ssa.Value]bool{}
+	for _, b := range ai.fn.Blocks {
+		for _, in := range b.Instrs {
+			v, ok := in.(ssa.Value)
+			if !ok {
+				continue
+			}
+			if _, isPhi := in.(*ssa.Phi); isPhi {
+				ai.live[v] = true
+				continue
+			}
+			if v.Referrers() == nil {
+				continue
+			}
+			for _, r := range *v.Referrers() {
+				if r.Block() != b {
+					ai.live[v] = true
+				}
+				if _, isPhi := r.(*ssa.Phi); isPhi {
+					ai.live[v] = true
+				}
+			}
+		}
+	}
 	// liveness approximation: only phis and values used across blocks matter for the visited key; keep all.
 	type item struct {
 		b    *ssa.BasicBlock
@@ -223,7 +256,7 @@ func (ai *AI) Run(init *aiState) {
 				}
 			}
 		}
-		key := itoa(it.b.Index) + "|" + st.key(nil)
+		key := itoa(it.b.Index) + "|" + st.key(ai.live)
 		if ai.visited[key] {
 			continue
 		}
@@ -343,6 +376,9 @@ func (ai *AI) Run(init *aiState) {
 						}
 					}
 					ns.env[x] = "sel:" + itoa(i)
+					if ai.onSelect != nil {
+						ai.onSelect(ns, x, i)
+					}
 					succs = append(succs, item{nil, nil, ns})
 				}
 				if !x.Blocking {
